@@ -35,8 +35,9 @@ def plan(tier, seed):
                obligation="Linear: bit-exact identity for all inputs; HLG round trip on [0,0.5]; sRGB round trip on its linear segment", sym="x: all f32 (Linear), every f32 in [0,0.5] (HLG), [0,0.003) (sRGB)",
                covers=["HLG range explored"])]
     for name in RT:
-        for c in range(0, len(pts), chunk):
-            sub = pts[c:c + chunk]
+        use = pts if (thorough or name != "PQ") else CV.grid(2)     # PQ: 4 fast-powf evaluations per direction, ~10 s of SAT time per input
+        for c in range(0, len(use), chunk):
+            sub = use[c:c + chunk]
             n, code = CV.rt_harness(name, sub, c // chunk)
             txt += code
             hs.append(dict(name=n, family="roundtrip", timeout=3000 if name == "PQ" else 1500, mem_gb=10, replay=CV.replay_curve, rk="grid", mode="rt", curve=name, xs=[CV.bits_of(x) for x in sub],
